@@ -53,6 +53,7 @@ def site_stmt(site, a):
         "loop-nested": ".loop %s { .loop %s { } }" % (a, a),
         "import-super": '.import super as zx from "zinc.asm"\nnop', "import-as-super": '.import * as super from "zinc.asm"\nnop',
         "import-super-path": '.import zfoo as super.zq from "zinc.asm"\nnop',
+        "seg-use-before-define": '.segment "zub" { lda #1 }\n.define segment { name = "zub" start = $1000 }\n.segment "zub" { rts }',
         "import-into-itself": '.import zfoo, zfoo as zfoo.zy from "zinc.asm"\nnop',
         "macro-fanout": ".macro zf2() {\nzf2()\nzf2()\n}\nzf2()", "macro-fanout-mutual": ".macro zfa() {\nzfb()\nzfb()\n}\n.macro zfb() {\nzfa()\nzfa()\n}\nzfa()",
         "nested-defined": ".if " + "defined(" * 3000 + "zz" + ")" * 3000 + " { nop }",
